@@ -127,6 +127,7 @@ func (vm *VM) resetPath(prefix []Decision) {
 	vm.unknowns = 0
 	vm.mapIDs = 0
 	vm.regions = nil
+	vm.stubLog = nil
 	vm.frozenOn = false
 	vm.frozen, vm.frozenMaps = nil, nil
 }
